@@ -681,3 +681,431 @@ Qed.
 Theorem C06_refines : forall s md s',
   inv s -> wf_md md -> small s' -> update_metadata s md = Ok s' -> abs s' = merge (abs s) md.
 Proof. intros s md s' Hinv Hwf Hsm Hupd. rewrite <- merge_code_wf by exact Hwf. apply C06_refines_code; auto. Qed.
+
+(* ================================================================================================ *)
+(* 7. Invariant, reset, histories, routing, stable indices                                          *)
+(* ================================================================================================ *)
+
+Theorem C06_inv_init : inv cstate_new.
+Proof. unfold inv, cstate_new. cbn [brokers topic_partitions map]. repeat split; constructor. Qed.
+
+Theorem C06_inv_clear : forall s, inv (clear_metadata s).
+Proof. intros s. unfold inv, clear_metadata. cbn [brokers topic_partitions map]. repeat split; constructor. Qed.
+
+Theorem C06_clear : forall s, abs (clear_metadata s) = {| a_host := []; a_topics := [] |}.
+Proof. reflexivity. Qed.
+
+Lemma sync_fun_ok bs idx : idx_ok (map b_node bs) idx ->
+  forall pms ps, Forall (ref_ok bs) ps -> Forall (ref_ok bs) (sync_fun idx pms ps).
+Proof.
+  intros Hidx. induction pms as [|pm pms IH]; intros ps Hps; cbn [sync_fun]; [exact Hps|].
+  destruct ((pm_id pm <? 0) || (ulen ps <=? pm_id pm)); [auto|]. apply IH. apply Forall_set_nth; [| exact Hps].
+  specialize (Hidx (pm_leader pm)). destruct (assoc_z (pm_leader pm) idx) as [i|]; [| left; reflexivity].
+  destruct Hidx as [H0 H1]. right. split; [exact H0|].
+  assert (Hlt : (Z.to_nat i < length (map b_node bs))%nat) by (apply nth_error_Some; congruence).
+  rewrite map_length in Hlt. unfold ulen. lia.
+Qed.
+
+Lemma topics_fun_ok bs idx : idx_ok (map b_node bs) idx ->
+  forall tms tps, Forall (fun tp => Forall (ref_ok bs) (snd tp)) tps ->
+                  Forall (fun tp => Forall (ref_ok bs) (snd tp)) (topics_fun idx tms tps).
+Proof.
+  intros Hidx. induction tms as [|tm tms IH]; intros tps Htps; cbn [topics_fun]; [exact Htps|].
+  apply IH. apply Forall_bset; [| exact Htps]. intros k'. cbn [snd]. unfold topic_vec.
+  apply sync_fun_ok; [exact Hidx|]. apply Forall_resize; [left; reflexivity|].
+  destruct (assoc_bytes (tm_topic tm) tps) as [ps|] eqn:E; [| constructor].
+  apply assoc_bytes_in in E. rewrite Forall_forall in Htps. exact (Htps _ E).
+Qed.
+
+Lemma topics_fun_nodup idx : forall tms tps, NoDup (map fst tps) -> NoDup (map fst (topics_fun idx tms tps)).
+Proof. induction tms as [|tm tms IH]; intros tps H; cbn [topics_fun]; [exact H|]. apply IH, NoDup_bset, H. Qed.
+
+Theorem C06_inv_step : forall s md s', inv s -> update_metadata s md = Ok s' -> inv s'.
+Proof.
+  intros s md s' (Hnd & Hrefs & Htn) Hupd. rewrite update_metadata_eq in Hupd. injection Hupd as <-.
+  unfold inv, upd_fun. cbn [brokers topic_partitions].
+  destruct (update_brokers s md) as [bs' idx'] eqn:Hub. cbn [fst snd].
+  destruct (update_brokers_spec s md bs' idx' Hnd Hub) as (Hnd' & Hidx & [sfx Hsfx] & _ & _).
+  split; [exact Hnd'|]. split; [| apply topics_fun_nodup; exact Htn].
+  apply topics_fun_ok; [exact Hidx|].
+  assert (Hlen : ulen (brokers s) <= ulen bs').
+  { rewrite <- (ulen_map b_node bs'), Hsfx. unfold ulen. rewrite app_length, map_length. lia. }
+  eapply Forall_impl; [| exact Hrefs]. intros [t ps] Hps. cbn [snd] in *.
+  eapply Forall_impl; [| exact Hps]. intros i [Hi|Hi]; [left; exact Hi | right; lia].
+Qed.
+
+(* input-only sufficient condition for the size hypothesis *)
+Lemma small_step : forall s md s',
+  inv s -> ulen (brokers s) + ulen (md_brokers md) <= UNKNOWN_BROKER_INDEX ->
+  update_metadata s md = Ok s' -> small s'.
+Proof.
+  intros s md s' (Hnd & _) Hsz Hupd. rewrite update_metadata_eq in Hupd. injection Hupd as <-.
+  unfold small, upd_fun. cbn [brokers]. destruct (update_brokers s md) as [bs' idx'] eqn:Hub. cbn [fst].
+  destruct (update_brokers_spec s md bs' idx' Hnd Hub) as (_ & _ & _ & _ & Hlen). unfold ulen in *. lia.
+Qed.
+
+Lemma brokers_bound : forall s md s',
+  inv s -> update_metadata s md = Ok s' -> ulen (brokers s') <= ulen (brokers s) + ulen (md_brokers md).
+Proof.
+  intros s md s' (Hnd & _) Hupd. rewrite update_metadata_eq in Hupd. injection Hupd as <-.
+  unfold upd_fun. cbn [brokers]. destruct (update_brokers s md) as [bs' idx'] eqn:Hub. cbn [fst].
+  destruct (update_brokers_spec s md bs' idx' Hnd Hub) as (_ & _ & _ & _ & Hlen). unfold ulen in *. lia.
+Qed.
+
+Lemma listed_brokers_nonneg ops : 0 <= listed_brokers ops.
+Proof.
+  induction ops as [|op ops IH]; cbn [listed_brokers fold_right]; [lia|]. fold (listed_brokers ops).
+  destruct op; unfold ulen; lia.
+Qed.
+
+Lemma history_from : forall ops s0,
+  inv s0 -> Forall wf_op ops -> ulen (brokers s0) + listed_brokers ops <= UNKNOWN_BROKER_INDEX ->
+  exists s, fold_left step_c ops (Ok s0) = Ok s /\ inv s /\ abs s = fold_left step_a ops (abs s0).
+Proof.
+  induction ops as [|op ops IH]; intros s0 Hinv Hwf Hsz; cbn [fold_left].
+  - exists s0. auto.
+  - inversion Hwf as [|x xs Hop Hops]; subst.
+    pose proof (listed_brokers_nonneg ops) as Hpos.
+    destruct op as [md|]; cbn [listed_brokers fold_right] in Hsz; fold (listed_brokers ops) in Hsz;
+      cbn [step_c bind step_a].
+    + destruct (C06_update_total s0 md) as [s1 Hs1]. rewrite Hs1.
+      pose proof (C06_inv_step _ _ _ Hinv Hs1) as Hinv1.
+      pose proof (brokers_bound _ _ _ Hinv Hs1) as Hb.
+      assert (Hsm : small s1) by (apply (small_step s0 md s1 Hinv); [lia | exact Hs1]).
+      rewrite <- (C06_refines s0 md s1 Hinv Hop Hsm Hs1). apply IH; auto. lia.
+    + change empty_view with (abs (clear_metadata s0)). apply IH; auto using C06_inv_clear.
+      cbn [clear_metadata brokers]. unfold ulen at 1. cbn [length]. unfold ulen in *. lia.
+Qed.
+
+Theorem C06_history : forall ops,
+  Forall wf_op ops -> listed_brokers ops <= UNKNOWN_BROKER_INDEX ->
+  exists s, fold_left step_c ops (Ok cstate_new) = Ok s /\ inv s /\
+            abs s = fold_left step_a ops empty_view.
+Proof.
+  intros ops Hwf Hsz. change empty_view with (abs cstate_new).
+  apply history_from; auto using C06_inv_init.
+Qed.
+
+(* ---- routing -------------------------------------------------------------------------------------- *)
+Lemma assoc_bpair : forall bs k b, NoDup (map b_node bs) -> nth_error bs k = Some b ->
+  assoc_z (b_node b) (map bpair bs) = Some (b_host b).
+Proof.
+  induction bs as [|b0 bs IH]; intros k b Hnd Hk; [destruct k; discriminate|].
+  cbn [map] in *. inversion Hnd as [|x xs Hni Hnd']; subst. change (bpair b0) with (b_node b0, b_host b0).
+  cbn [assoc_z]. destruct k as [|k]; cbn [nth_error] in Hk.
+  - injection Hk as ->. rewrite Z.eqb_refl. reflexivity.
+  - destruct (b_node b0 =? b_node b) eqn:E; [| eapply IH; eauto].
+    exfalso. apply Hni. replace (b_node b0) with (b_node b) by lia.
+    apply in_map. eapply nth_error_In; eauto.
+Qed.
+
+Theorem C06_routing : forall s t p, inv s ->
+  find_broker s t p =
+  match assoc_bytes t (a_topics (abs s)) with
+  | Some ps => match nth_z ps p with Some (Some l) => assoc_z l (a_host (abs s)) | _ => None end
+  | None => None
+  end.
+Proof.
+  intros s t p (Hnd & _). unfold find_broker, partitions_for, partition_ref, broker_of, abs.
+  cbn [a_topics a_host]. unfold abs_tps. rewrite (assoc_bytes_map (map (ref_node (brokers s)))).
+  destruct (assoc_bytes t (topic_partitions s)) as [ps|]; cbn [option_map]; [| reflexivity].
+  rewrite nth_z_map. destruct (nth_z ps p) as [bref|]; cbn [option_map]; [| reflexivity].
+  unfold ref_node. destruct (nth_z (brokers s) bref) as [b|] eqn:E; cbn [option_map]; [| reflexivity].
+  apply nth_z_some in E. destruct E as [_ E]. symmetry. eapply assoc_bpair; eauto.
+Qed.
+
+Corollary C06_routing' : forall s t p, inv s -> find_broker s t p = route (abs s) t p.
+Proof. exact C06_routing. Qed.
+
+(* ---- stable indices ------------------------------------------------------------------------------- *)
+Lemma topics_fun_other idx t : forall tms tps,
+  ~ In t (map tm_topic tms) -> assoc_bytes t (topics_fun idx tms tps) = assoc_bytes t tps.
+Proof.
+  induction tms as [|tm tms IH]; intros tps Hn; cbn [topics_fun]; [reflexivity|].
+  cbn [map In] in Hn. rewrite IH by tauto. rewrite assoc_bytes_bset.
+  destruct (bytes_eqb (tm_topic tm) t) eqn:E; [beq; tauto | reflexivity].
+Qed.
+
+(* the raw references of a topic the response does not mention are untouched, and the node ids of
+   the broker vector are only ever extended at the end *)
+Theorem C06_stable_refs : forall s md s' t,
+  update_metadata s md = Ok s' -> ~ In t (map tm_topic (md_topics md)) ->
+  partitions_for s' t = partitions_for s t.
+Proof.
+  intros s md s' t Hupd Hn. rewrite update_metadata_eq in Hupd. injection Hupd as <-.
+  unfold partitions_for, upd_fun. cbn [topic_partitions]. apply topics_fun_other. exact Hn.
+Qed.
+
+Theorem C06_stable_nodes : forall s md s',
+  inv s -> update_metadata s md = Ok s' -> exists sfx, map b_node (brokers s') = map b_node (brokers s) ++ sfx.
+Proof.
+  intros s md s' (Hnd & _) Hupd. rewrite update_metadata_eq in Hupd. injection Hupd as <-.
+  unfold upd_fun. cbn [brokers]. destruct (update_brokers s md) as [bs' idx'] eqn:Hub. cbn [fst].
+  destruct (update_brokers_spec s md bs' idx' Hnd Hub) as (_ & _ & Hsfx & _). exact Hsfx.
+Qed.
+
+Theorem C06_stable_indices : forall s md s' t p,
+  inv s -> small s' -> update_metadata s md = Ok s' -> ~ In t (map tm_topic (md_topics md)) ->
+  leader_of (abs s') t p = leader_of (abs s) t p.
+Proof.
+  intros s md s' t p Hinv Hsm Hupd Hn.
+  pose proof (C06_stable_refs _ _ _ _ Hupd Hn) as Hrefs.
+  pose proof (C06_stable_nodes _ _ _ Hinv Hupd) as Hsfx.
+  destruct Hinv as (_ & Hok & _).
+  unfold leader_of, abs. cbn [a_topics]. unfold abs_tps.
+  rewrite !(assoc_bytes_map (map (ref_node _))). unfold partitions_for in Hrefs. rewrite Hrefs.
+  destruct (assoc_bytes t (topic_partitions s)) as [ps|] eqn:E; cbn [option_map]; [| reflexivity].
+  rewrite !nth_z_map. destruct (nth_z ps p) as [bref|] eqn:E1; cbn [option_map]; [| reflexivity].
+  rewrite (ref_node_ext (brokers s) (brokers s')); auto.
+  apply assoc_bytes_in in E. rewrite Forall_forall in Hok. specialize (Hok _ E). cbn [snd] in Hok.
+  rewrite Forall_forall in Hok. apply Hok. apply nth_z_some in E1. destruct E1 as [_ E1].
+  eapply nth_error_In; eauto.
+Qed.
+
+(* ================================================================================================ *)
+(* 8. Requests are addressed to the leader; leaderless partitions are never sent to                 *)
+(* ================================================================================================ *)
+
+Lemma route_leader a t p :
+  route a t p = match leader_of a t p with Some l => assoc_z l (a_host a) | None => None end.
+Proof.
+  unfold route, leader_of. destruct (assoc_bytes t (a_topics a)) as [ps|]; [| reflexivity].
+  destruct (nth_z ps p) as [[l|]|]; reflexivity.
+Qed.
+
+Theorem C06_addressed_has_leader : forall s t p host, inv s -> find_broker s t p = Some host ->
+  exists l, leader_of (abs s) t p = Some l /\ assoc_z l (a_host (abs s)) = Some host.
+Proof.
+  intros s t p host Hinv H. rewrite C06_routing' in H by exact Hinv. rewrite route_leader in H.
+  destruct (leader_of (abs s) t p) as [l|]; [eauto | discriminate].
+Qed.
+
+Theorem C06_no_leader_no_address : forall s t p, inv s -> leader_of (abs s) t p = None -> find_broker s t p = None.
+Proof. intros s t p Hinv H. rewrite C06_routing' by exact Hinv. rewrite route_leader, H. reflexivity. Qed.
+
+(* (host, topic, partition) occurs in a per-host grouped request map *)
+Definition Kin {P} (tps : list (bytes * list (Z * P))) (t : bytes) (q : Z) : Prop :=
+  exists ps y, In (t, ps) tps /\ In (q, y) ps.
+Definition Hin {P} (reqs : list (bytes * list (bytes * list (Z * P)))) (h t : bytes) (q : Z) : Prop :=
+  exists tps, In (h, tps) reqs /\ Kin tps t q.
+
+Lemma Kin_cons {P} (t0 : bytes) (ps0 : list (Z * P)) r t q :
+  Kin ((t0, ps0) :: r) t q <-> (t = t0 /\ exists y, In (q, y) ps0) \/ Kin r t q.
+Proof.
+  unfold Kin. cbn [In]. split.
+  - intros (ps & y & [H|H] & Hy).
+    + injection H as <- <-. left. eauto.
+    + right. eauto.
+  - intros [[-> [y Hy]] | (ps & y & H & Hy)]; eauto 6.
+Qed.
+
+Lemma Hin_cons {P} (h0 : bytes) (tps0 : list (bytes * list (Z * P))) r h t q :
+  Hin ((h0, tps0) :: r) h t q <-> (h = h0 /\ Kin tps0 t q) \/ Hin r h t q.
+Proof.
+  unfold Hin. cbn [In]. split.
+  - intros (tps & [H|H] & Hk).
+    + injection H as <- <-. left. auto.
+    + right. eauto.
+  - intros [[-> Hk] | (tps & H & Hk)]; eauto.
+Qed.
+
+Lemma tp_add_K {P} : forall (tps : list (bytes * list (Z * P))) topic p x t q,
+  Kin (tp_add tps topic (p, x)) t q -> Kin tps t q \/ (t = topic /\ q = p).
+Proof.
+  induction tps as [|[t0 ps0] r IH]; intros topic p x t q H; cbn [tp_add] in H.
+  - apply Kin_cons in H. destruct H as [[-> [y [Hy|[]]]] | (ps & y & [] & _)]. injection Hy as <- _. auto.
+  - destruct (bytes_eqb t0 topic) eqn:E; apply Kin_cons in H; rewrite Kin_cons.
+    + beq. destruct H as [[-> [y Hy]] | H]; [| auto]. apply in_app_iff in Hy.
+      destruct Hy as [Hy | [Hy|[]]]; [left; left; eauto|]. injection Hy as <- _. auto.
+    + destruct H as [H|H]; [auto|]. apply IH in H. tauto.
+Qed.
+
+Lemma fp_insert_in : forall ps p v q y, In (q, y) (fp_insert ps p v) -> (exists y', In (q, y') ps) \/ q = p.
+Proof.
+  induction ps as [|[q0 w] r IH]; intros p v q y H; cbn [fp_insert] in H.
+  - destruct H as [H|[]]. injection H as <- _. auto.
+  - destruct (q0 =? p) eqn:E; cbn [In] in H.
+    + destruct H as [H|H]; [injection H as <- _; right; lia | left; exists y; right; exact H].
+    + destruct H as [H|H]; [injection H as <- <-; left; exists w; left; reflexivity|].
+      apply IH in H. destruct H as [[y' H]|H]; [left; exists y'; right; exact H | auto].
+Qed.
+
+Lemma fetch_add_K : forall tps topic p off maxb t q,
+  Kin (fetch_add tps topic p off maxb) t q -> Kin tps t q \/ (t = topic /\ q = p).
+Proof.
+  induction tps as [|[t0 ps0] r IH]; intros topic p off maxb t q H; cbn [fetch_add] in H.
+  - apply Kin_cons in H. destruct H as [[-> [y [Hy|[]]]] | (ps & y & [] & _)]. injection Hy as <- _. auto.
+  - destruct (bytes_eqb t0 topic) eqn:E; apply Kin_cons in H; rewrite Kin_cons.
+    + beq. destruct H as [[-> [y Hy]] | H]; [| auto]. apply fp_insert_in in Hy.
+      destruct Hy as [Hy | ->]; auto.
+    + destruct H as [H|H]; [auto|]. apply IH in H. tauto.
+Qed.
+
+Lemma pp_add_in : forall ps p (m : pmsg) q y, In (q, y) (pp_add ps p m) -> (exists y', In (q, y') ps) \/ q = p.
+Proof.
+  induction ps as [|[q0 w] r IH]; intros p m q y H; cbn [pp_add] in H.
+  - destruct H as [H|[]]. injection H as <- _. auto.
+  - destruct (q0 =? p) eqn:E; cbn [In] in H.
+    + destruct H as [H|H]; [injection H as <- _; right; lia | left; exists y; right; exact H].
+    + destruct H as [H|H]; [injection H as <- <-; left; exists w; left; reflexivity|].
+      apply IH in H. destruct H as [[y' H]|H]; [left; exists y'; right; exact H | auto].
+Qed.
+
+Lemma produce_add_K : forall tps topic p m t q,
+  Kin (produce_add tps topic p m) t q -> Kin tps t q \/ (t = topic /\ q = p).
+Proof.
+  induction tps as [|[t0 ps0] r IH]; intros topic p m t q H; cbn [produce_add] in H.
+  - apply Kin_cons in H. destruct H as [[-> [y [Hy|[]]]] | (ps & y & [] & _)]. injection Hy as <- _. auto.
+  - destruct (bytes_eqb t0 topic) eqn:E; apply Kin_cons in H; rewrite Kin_cons.
+    + beq. destruct H as [[-> [y Hy]] | H]; [| auto]. apply pp_add_in in Hy.
+      destruct Hy as [Hy | ->]; auto.
+    + destruct H as [H|H]; [auto|]. apply IH in H. tauto.
+Qed.
+
+Lemma Kin_nil {P} t q : ~ @Kin P [] t q.
+Proof. intros (ps & y & [] & _). Qed.
+
+Lemma host_add_H {P} : forall (reqs : list (bytes * list (bytes * list (Z * P)))) host topic p x h t q,
+  Hin (host_add reqs host topic (p, x)) h t q -> Hin reqs h t q \/ (h = host /\ t = topic /\ q = p).
+Proof.
+  induction reqs as [|[h0 tps0] r IH]; intros host topic p x h t q H; cbn [host_add] in H.
+  - apply Hin_cons in H. destruct H as [[-> H] | (tps & [] & _)].
+    apply tp_add_K in H. destruct H as [H|H]; [exfalso; eapply Kin_nil; eauto | tauto].
+  - destruct (bytes_eqb h0 host) eqn:E; apply Hin_cons in H; rewrite Hin_cons.
+    + beq. destruct H as [[-> H] | H]; [| auto]. apply tp_add_K in H. destruct H as [H|H]; [auto | tauto].
+    + destruct H as [H|H]; [auto|]. apply IH in H. tauto.
+Qed.
+
+Lemma fhost_add_H : forall reqs host topic p off maxb h t q,
+  Hin (fhost_add reqs host topic p off maxb) h t q -> Hin reqs h t q \/ (h = host /\ t = topic /\ q = p).
+Proof.
+  induction reqs as [|[h0 tps0] r IH]; intros host topic p off maxb h t q H; cbn [fhost_add] in H.
+  - apply Hin_cons in H. destruct H as [[-> H] | (tps & [] & _)].
+    apply fetch_add_K in H. destruct H as [H|H]; [exfalso; eapply Kin_nil; eauto | tauto].
+  - destruct (bytes_eqb h0 host) eqn:E; apply Hin_cons in H; rewrite Hin_cons.
+    + beq. destruct H as [[-> H] | H]; [| auto]. apply fetch_add_K in H. destruct H as [H|H]; [auto | tauto].
+    + destruct H as [H|H]; [auto|]. apply IH in H. tauto.
+Qed.
+
+Lemma phost_add_H : forall reqs host topic p m h t q,
+  Hin (phost_add reqs host topic p m) h t q -> Hin reqs h t q \/ (h = host /\ t = topic /\ q = p).
+Proof.
+  induction reqs as [|[h0 tps0] r IH]; intros host topic p m h t q H; cbn [phost_add] in H.
+  - apply Hin_cons in H. destruct H as [[-> H] | (tps & [] & _)].
+    apply produce_add_K in H. destruct H as [H|H]; [exfalso; eapply Kin_nil; eauto | tauto].
+  - destruct (bytes_eqb h0 host) eqn:E; apply Hin_cons in H; rewrite Hin_cons.
+    + beq. destruct H as [[-> H] | H]; [| auto]. apply produce_add_K in H. destruct H as [H|H]; [auto | tauto].
+    + destruct H as [H|H]; [auto|]. apply IH in H. tauto.
+Qed.
+
+Definition all_to_leader {P} (s : cstate) (reqs : list (bytes * list (bytes * list (Z * P)))) : Prop :=
+  forall h t q, Hin reqs h t q -> find_broker s t q = Some h.
+
+Lemma all_to_leader_nil {P} s : @all_to_leader P s [].
+Proof. intros h t q (tps & [] & _). Qed.
+
+Lemma leaders_from_spec s : forall r k id host, In (id, host) (leaders_from s r k) ->
+  exists bref b, k <= id /\ nth_error r (Z.to_nat (id - k)) = Some bref /\
+                 broker_of s bref = Some b /\ b_host b = host.
+Proof.
+  induction r as [|bref0 r IH]; intros k id host H; cbn [leaders_from] in H; [destruct H|].
+  assert (Htail : In (id, host) (leaders_from s r (k + 1)) ->
+                  exists bref b, k <= id /\ nth_error (bref0 :: r) (Z.to_nat (id - k)) = Some bref /\
+                                 broker_of s bref = Some b /\ b_host b = host).
+  { intros H1. apply IH in H1. destruct H1 as (bref & b & Hk & Hn & Hb & Hh). exists bref, b.
+    repeat split; auto; [lia|]. replace (Z.to_nat (id - k)) with (S (Z.to_nat (id - (k + 1)))) by lia.
+    exact Hn. }
+  destruct (broker_of s bref0) as [b|] eqn:E; [| auto].
+  destruct H as [H|H]; [| auto]. injection H as <- <-. exists bref0, b.
+  rewrite Z.sub_diag. cbn [Z.to_nat nth_error]. repeat split; auto. lia.
+Qed.
+
+Lemma leaders_from_find s topic ps id host :
+  partitions_for s topic = Some ps -> In (id, host) (leaders_from s ps 0) -> find_broker s topic id = Some host.
+Proof.
+  intros Hps H. apply leaders_from_spec in H. destruct H as (bref & b & Hk & Hn & Hb & Hh).
+  rewrite Z.sub_0_r in Hn. unfold find_broker, partition_ref. rewrite Hps.
+  replace (nth_z ps id) with (Some bref) by (symmetry; apply nth_z_some; auto).
+  rewrite Hb. cbn [option_map]. congruence.
+Qed.
+
+Theorem C06_leaderless_never_addressed : forall s topics time host tps,
+  In (host, tps) (offset_reqs s topics time) ->
+  forall t ps, In (t, ps) tps -> forall p x, In (p, x) ps -> find_broker s t p = Some host.
+Proof.
+  intros s topics time. unfold offset_reqs.
+  assert (Hall : forall reqs, all_to_leader s reqs ->
+            all_to_leader s (fold_left (fun reqs topic =>
+               match partitions_for s topic with
+               | None => reqs
+               | Some ps => fold_left (fun reqs '(id, host) => host_add reqs host topic (id, time))
+                                      (leaders_from s ps 0) reqs
+               end) topics reqs)).
+  { induction topics as [|topic topics IH]; intros reqs Hreqs; cbn [fold_left]; [exact Hreqs|].
+    apply IH. destruct (partitions_for s topic) as [ps|] eqn:Hps; [| exact Hreqs].
+    pose proof (leaders_from_find s topic ps) as Hl. specialize (Hl) .
+    revert reqs Hreqs Hl. generalize (leaders_from s ps 0). clear IH.
+    induction l as [|[id host] l IHl]; intros reqs Hreqs Hl; cbn [fold_left]; [exact Hreqs|].
+    apply IHl; [| intros id' host' Hp Hin; apply Hl; [exact Hp | right; exact Hin]].
+    intros h t q H. apply host_add_H in H. destruct H as [H | (-> & -> & ->)]; [auto|].
+    apply Hl; [exact Hps | left; reflexivity]. }
+  intros host tps Hin t ps Ht p x Hp. apply (Hall [] (all_to_leader_nil s)).
+  exists tps. split; [exact Hin|]. exists ps, x. auto.
+Qed.
+
+Theorem C06_fetch_addressed : forall c input host tps,
+  In (host, tps) (fetch_reqs c input) ->
+  forall t ps, In (t, ps) tps -> forall p x, In (p, x) ps -> find_broker (cs c) t p = Some host.
+Proof.
+  intros c input. unfold fetch_reqs.
+  assert (Hall : forall reqs, all_to_leader (cs c) reqs ->
+            all_to_leader (cs c) (fold_left (fun reqs q =>
+               match find_broker (cs c) (fq_topic q) (fq_partition q) with
+               | None => reqs
+               | Some host =>
+                   fhost_add reqs host (fq_topic q) (fq_partition q) (fq_offset q)
+                             (if 0 <? fq_max_bytes q then fq_max_bytes q
+                              else fetch_max_bytes_per_partition (cfg c))
+               end) input reqs)).
+  { induction input as [|q0 input IH]; intros reqs Hreqs; cbn [fold_left]; [exact Hreqs|].
+    apply IH. destruct (find_broker (cs c) (fq_topic q0) (fq_partition q0)) as [host|] eqn:E; [| exact Hreqs].
+    intros h t q H. apply fhost_add_H in H. destruct H as [H | (-> & -> & ->)]; auto. }
+  intros host tps Hin t ps Ht p x Hp. apply (Hall [] (all_to_leader_nil (cs c))).
+  exists tps. split; [exact Hin|]. exists ps, x. auto.
+Qed.
+
+Lemma produce_reqs_all s : forall msgs acc reqs,
+  all_to_leader s acc -> produce_reqs s msgs acc = Some reqs -> all_to_leader s reqs.
+Proof.
+  induction msgs as [|m msgs IH]; intros acc reqs Hacc H; cbn [produce_reqs] in H.
+  - injection H as <-. exact Hacc.
+  - destruct (find_broker s (pq_topic m) (pq_partition m)) as [host|] eqn:E; [| discriminate].
+    eapply IH; [| exact H]. intros h t q Hq. apply phost_add_H in Hq.
+    destruct Hq as [Hq | (-> & -> & ->)]; auto.
+Qed.
+
+Theorem C06_produce_addressed : forall s msgs reqs, produce_reqs s msgs [] = Some reqs ->
+  forall host tps, In (host, tps) reqs ->
+  forall t ps, In (t, ps) tps -> forall p x, In (p, x) ps -> find_broker s t p = Some host.
+Proof.
+  intros s msgs reqs H host tps Hin t ps Ht p x Hp.
+  apply (produce_reqs_all s msgs [] reqs (all_to_leader_nil s) H).
+  exists tps. split; [exact Hin|]. exists ps, x. auto.
+Qed.
+
+(* a produce batch containing a message for a partition without address is refused as a whole ... *)
+Theorem C06_produce_unavailable : forall s msgs acc m,
+  In m msgs -> find_broker s (pq_topic m) (pq_partition m) = None -> produce_reqs s msgs acc = None.
+Proof.
+  induction msgs as [|m0 msgs IH]; intros acc m Hin Hm; [destruct Hin|]. cbn [produce_reqs].
+  destruct (find_broker s (pq_topic m0) (pq_partition m0)) as [host|] eqn:E; [| reflexivity].
+  destruct Hin as [->|Hin]; [congruence|]. eapply IH; eauto.
+Qed.
+
+(* ... whereas fetch silently drops such a partition from the request *)
+Theorem C06_fetch_skips : forall c pre q post,
+  find_broker (cs c) (fq_topic q) (fq_partition q) = None ->
+  fetch_reqs c (pre ++ q :: post) = fetch_reqs c (pre ++ post).
+Proof.
+  intros c pre q post H. unfold fetch_reqs. rewrite !fold_left_app. cbn [fold_left]. rewrite H. reflexivity.
+Qed.
